@@ -779,6 +779,13 @@ def emit_sideconds(ev, sideconds, k, n, what):
                 ev.st.assume(q)
 
 
+def _src_trigger(ev):
+    """contract option comp_src_trigger: the element-wise axiom of an unfiltered comprehension is also triggered by
+    elements of the SOURCE list (off by default: it costs instantiations in proofs that do not need it)"""
+    c = ev.frame.root().contract
+    return bool(getattr(c, "comp_src_trigger", False)) if c is not None else False
+
+
 def comprehension(ev: Ev, node, kind):
     st = ev.st
     tgt, iter_node, ifs = _comp_parts(node)
@@ -834,7 +841,10 @@ def comprehension(ev: Ev, node, kind):
     if not ifs:
         j = z3.Int(st.run.fresh_name("cj"))
         body = z3.And([cols[i][j] == z3.substitute(leaves[i], (k, j)) for i in range(len(cols))])
-        st.assume(mk_quant("forall", [j], z3.Implies(z3.And(0 <= j, j < n), body), patterns=[c[j] for c in cols][:1]))
+        # triggers: an element of the result, or the element of the source it was computed from (needed to carry
+        # an existential over the source to the result)
+        st.assume(mk_quant("forall", [j], z3.Implies(z3.And(0 <= j, j < n), body),
+                           patterns=[c[j] for c in cols][:1] + ([c[j] for c in lo.cols][:1] if _src_trigger(ev) else [])))
         return st.alloc(ListObj(n, cols, etype))
     m = z3.Int(rname + ".len")
     idx = z3.Function(rname + ".idx", I, I)
